@@ -189,6 +189,7 @@ class Handle:
         F = self._decl(name, sig)
         argk = sig.split(">")[0]
         assert len(argk) == len(args), (name, sig, len(args))
+        args = [int(a) if (k == "i" and isinstance(a, float) and a.is_integer()) else a for k, a in zip(argk, args)]  # 1.0 for an integer slot
         if self.kind == "sym" or TOKEN_MODE[0] or any(symx.is_sym(a) for a in args):
             zs = []
             for k, a in zip(argk, args):
